@@ -56,6 +56,9 @@ var scenarios = map[string]string{
 	"child-callback-loop":    `global (PCALL, PARK); PCALL(func() { PARK("cb"); for { } })`,
 	"child-after-callback":   `global (PCALL, PARK); PARK("cb"); PCALL(func() { for { } })`,
 	"unpooled-sequence":      `global CALL; for { CALL(func() { return 1 }) }`,
+	// ONE Invoker used for several Invoke calls: the first call returns, a later one never does
+	"unpooled-reuse-loop": `global CALLN; n := 0; CALLN(func() { n++; if n > 1 { for { } }; return n })`,
+	"pooled-reuse-loop":   `global PCALLN; n := 0; PCALLN(func() { n++; if n > 2 { for { } }; return n })`,
 }
 
 var scenarioNames = func() []string {
@@ -198,7 +201,27 @@ func globalsFor(c *controller) ugo.Map {
 		defer inv.Release()
 		return inv.Invoke()
 	}}
-	return ugo.Map{"PARK": park, "CALL": call, "PCALL": pcall}
+	calln := &ugo.Function{Name: "CALLN", ValueEx: func(call ugo.Call) (ugo.Object, error) {
+		inv := ugo.NewInvoker(call.VM(), call.Get(0))
+		var ret ugo.Object
+		var err error
+		for i := 0; i < 4 && err == nil; i++ {
+			ret, err = inv.Invoke()
+		}
+		return ret, err
+	}}
+	pcalln := &ugo.Function{Name: "PCALLN", ValueEx: func(call ugo.Call) (ugo.Object, error) {
+		inv := ugo.NewInvoker(call.VM(), call.Get(0))
+		inv.Acquire()
+		defer inv.Release()
+		var ret ugo.Object
+		var err error
+		for i := 0; i < 4 && err == nil; i++ {
+			ret, err = inv.Invoke()
+		}
+		return ret, err
+	}}
+	return ugo.Map{"PARK": park, "CALL": call, "PCALL": pcall, "CALLN": calln, "PCALLN": pcalln}
 }
 
 const waitBudget = 2 * time.Second
@@ -479,7 +502,7 @@ func TestCheck(t *testing.T) {
 	for _, sc := range scenarioNames {
 		for _, p := range points {
 			for k := 1; k <= 3; k++ {
-				if ev.Tier() == "quick" && k > 1 && !(sc == "child-sequence" || sc == "child-sequence-stdlib" || sc == "unpooled-sequence" || sc == "nested-child-loop") {
+				if ev.Tier() == "quick" && k > 1 && !(sc == "child-sequence" || sc == "child-sequence-stdlib" || sc == "unpooled-sequence" || sc == "nested-child-loop" || sc == "unpooled-reuse-loop" || sc == "pooled-reuse-loop") {
 					continue
 				}
 				if p == "free" && k > 1 {
